@@ -7,6 +7,7 @@ package main
 import (
 	"fmt"
 	"math/rand"
+	"os"
 	"strings"
 )
 
@@ -702,6 +703,10 @@ func genVfy(c *ctx, emit func(string)) {
 	// fixed regression shapes first
 	for _, l := range vfyFixed {
 		emit(l)
+	}
+	// opt-in concurrency stress (see vfy_race.go)
+	if ms := os.Getenv("VFY_RACE_MS"); ms != "" {
+		emit("#race " + ms)
 	}
 	for i := 0; i < c.n; i++ {
 		kind := "m"
